@@ -3,6 +3,7 @@
 Also hosts the harness shared with C09 (table generation, export to Coq, oracles)."""
 import importlib
 import itertools
+import math
 import shutil
 from fractions import Fraction
 
@@ -154,9 +155,16 @@ def random_case(s, rng):
 # ------------------------------------------------------------------------------------------
 # export of tables to Coq (exact rationals of the floats)
 # ------------------------------------------------------------------------------------------
+def safe_num(x):
+    """non-finite implementation output -> a sentinel no model value can match (the tie then fails and the
+    oracle reports the NaN with its input)"""
+    x = float(x)
+    return x if math.isfinite(x) else 1.0e300
+
+
 def coq_table(cols):
     """cols: list of (label, [floats])"""
-    return "[" + ";\n    ".join("(%s, [%s])" % (coq_string(l), "; ".join(qlit(float(x)) for x in v))
+    return "[" + ";\n    ".join("(%s, [%s])" % (coq_string(l), "; ".join(qlit(safe_num(x)) for x in v))
                                 for l, v in cols) + "]"
 
 
@@ -333,6 +341,18 @@ def run(ctx):
             S = random_sufficient_set(system, rng)
             cols, tensors = make_table(system, rng, S, nrows, with_v=rng.random() < 0.7)
             df = pandas.DataFrame(dict(cols), columns=[l for l, _ in cols])
+            # row labels are the caller's business: filling works on row POSITIONS.  Present the table
+            # with other indexes too (re-sorted labels, arbitrary labels, labelled by volume)
+            ikind = rng.choice(["default", "default", "reversed", "shuffled", "offset", "float"])
+            if ikind == "reversed":
+                df.index = list(range(nrows - 1, -1, -1))
+            elif ikind == "shuffled":
+                lab = list(range(nrows)); rng.shuffle(lab); df.index = lab
+            elif ikind == "offset":
+                df.index = [10 + 3 * i for i in range(nrows)]
+            elif ikind == "float":
+                df.index = [500.5 - 7.25 * i for i in range(nrows)]
+            ctx.count("row index:" + ikind)
             scale = max(1.0, max(abs(float(x)) for t in tensors for x in t))
             try:
                 out = F.fill_cij(df.copy(), system)
@@ -340,6 +360,11 @@ def run(ctx):
             except BaseException as e:
                 out = None
                 obs = ("raise", classify_exception(e))
+            if obs[0] == "ok" and any(not math.isfinite(float(x)) for _, v in obs[1] for x in v):
+                ctx.failure("fill-nonfinite-%s-index-%s" % (system, ikind),
+                            "fill_cij returned NaN/inf for a symmetry-consistent table (row index kind: %s)" % ikind,
+                            input=dict(system=system, table={l: v for l, v in cols}, index=[repr(i) for i in df.index]),
+                            observed={l: v for l, v in obs[1]})
             generated = [i for i in nonvanishing(system) if i not in S]
             ctx.case(dict(system=system, cols=cols), nontrivial=bool(generated) or system == "triclinic")
             ctx.count("system:" + system)
@@ -471,6 +496,8 @@ def oracle_consistent(ctx, system, cols, tensors, S, obs, scale, m):
     out = dict((l.lower(), v) for l, v in obs[1])
     out_labels = [l for l, _ in obs[1]]
     nrows = len(tensors)
+    if any(not math.isfinite(float(x)) for _, v in obs[1] for x in v):
+        return   # reported by the caller as fill-nonfinite-...
     if system == "triclinic" and len(S) < NSYM:
         return   # nothing to generate: every component is independent (see C09 for the refusal clause)
     for r in range(nrows):
